@@ -36,7 +36,7 @@ def program(cls_name, N, h, hs, kmax, both_flags):
 
     def prog(ctx):
         sym = not getattr(ctx, "is_replay", False)
-        with overlay(rb, np=NpShim(), jnp=JnpShim()) if sym else contextlib.nullcontext():
+        with overlay(rb, np=NpShim(), jnp=JnpShim()):
             buf = getattr(rb, cls_name)(N, horizon=h)
             K = int(sym_int("n_adds", 1, kmax))
             ep, t = 0, 0
